@@ -148,6 +148,15 @@ def known_signatures(prop: str) -> Dict[str, Dict[str, Any]]:
 def _worker_init() -> None:
     pin_path()
     install_logging()
+    # safety net: a library call that never returns AND keeps allocating (a runaway expansion) must not take the machine
+    # down with it before the wall-clock backstop fires - a worker that passes 8 GB gets a MemoryError instead
+    try:
+        import resource
+
+        lim = int(os.environ.get("VERIF_WORKER_AS_GB", "8")) << 30
+        resource.setrlimit(resource.RLIMIT_AS, (lim, lim))
+    except Exception:  # pragma: no cover - platform without RLIMIT_AS
+        pass
 
 
 def pin_path() -> None:
@@ -180,6 +189,19 @@ def _run_unit(args):
             signal.alarm(0)
         res["wall"] = time.time() - t0
         return res
+    except (Watchdog, MemoryError) as exc:
+        # the library call under test did not come back (or ran out of memory on the way): that is an observation about
+        # the code under test, not a harness failure - every unit is sized to finish in a small fraction of the backstop
+        prop = modname.rsplit(".", 1)[-1].upper()
+        try:
+            idx = [repr(u) for u in importlib.import_module(modname).units(os.environ.get("VERIF_TIER", "quick"))].index(repr(unit))
+        except Exception:  # noqa: BLE001
+            idx = None
+        kind = "ran-out-of-memory" if isinstance(exc, MemoryError) else "did-not-return-within-the-wall-clock-backstop"
+        return dict(states=0, transitions=0, executions=1, evaluations=1, distinct_count=1, samples=[], caps=[], violations=[dict(
+            signature=f"{prop}|unit-{kind}", clause=kind,
+            what=f"work unit {repr(unit)[:300]} {kind} ({type(exc).__name__}: {exc}); the calls it makes into the library never finished",
+            size=0, replay=dict(kind="unit-backstop", tier=os.environ.get("VERIF_TIER", "quick"), index=idx, unit=repr(unit)[:400]))])
     except BaseException as exc:  # harness error, not a violation
         return {
             "harness_error": f"{type(exc).__name__}: {exc}",
@@ -195,6 +217,7 @@ def run_check(prop: str, tier: str, seed: int) -> int:
     modname = f"mc.props.{prop.lower()}"
     mod = importlib.import_module(modname)
     t0 = time.time()
+    os.environ["VERIF_TIER"] = tier   # (workers name the unit of a backstop record by its index in units(tier))
     units = list(mod.units(tier))
     # VERIF_SEED only rotates the dealing order of work units.
     if units:
@@ -338,7 +361,18 @@ def run_replay(prop: str, path: str) -> int:
     mod = importlib.import_module(f"mc.props.{prop.lower()}")
     with open(path) as f:
         payload = json.load(f)
-    vs = mod.replay(payload["replay"])
+    rp = payload["replay"]
+    if isinstance(rp, dict) and rp.get("kind") == "unit-backstop":
+        os.environ["VERIF_TIER"] = rp.get("tier", "quick")
+        units = list(mod.units(rp.get("tier", "quick")))
+        unit = units[rp["index"]] if rp.get("index") is not None else None
+        if unit is None:
+            print("cannot identify the work unit of this record")
+            return 2
+        r = _run_unit((f"mc.props.{prop.lower()}", unit))
+        vs = [v for v in r.get("violations", []) if v["signature"] == payload["signature"]]
+    else:
+        vs = mod.replay(rp)
     if vs:
         for v in vs:
             print(f"REPRODUCED property={prop} signature={v['signature']}")
